@@ -8,11 +8,13 @@
 package gosim
 
 import (
+	cryptorand "crypto/rand"
 	"crypto/sha256"
 	"encoding/hex"
 	"encoding/json"
 	"flag"
 	"fmt"
+	"io"
 	"math/rand"
 	randv2 "math/rand/v2"
 	"os"
@@ -551,6 +553,7 @@ func Main(t *testing.T) {
 	// crypto/rand (chunk encryption keys, key generation, kademlia random subsets)
 	// becomes one seeded stream; its consumption order is the seeded schedule.
 	cryptotest.SetGlobalRandom(t, mix(plan.Seed, 4))
+	cryptorand.Reader = &managedOnlyReader{seeded: cryptorand.Reader, other: randv2.NewChaCha8([32]byte{1})}
 	synctest.Test(t, func(t *testing.T) {
 		execInBubble(w, plan, *fTrace)
 	})
@@ -580,6 +583,28 @@ func GenPlan(w *World, seed uint64, tier string) *Plan {
 		plan.Params["sticky"] = []int64{50, 80, 95}[rng.Intn(3)]
 	}
 	return plan
+}
+
+// managedOnlyReader serves the seeded crypto/rand stream to simulated goroutines
+// only. Goroutines outside the simulation (e.g. gogf/grand's init-time producer
+// loop) must not consume it, or the stream position would depend on real timing.
+type managedOnlyReader struct {
+	seeded io.Reader
+	mu     sync.Mutex
+	other  *randv2.ChaCha8
+}
+
+//go:norace
+func (m *managedOnlyReader) Read(b []byte) (int, error) {
+	if runtime.GosimID() != 0 {
+		return m.seeded.Read(b)
+	}
+	RaceOff()
+	m.mu.Lock()
+	n, err := m.other.Read(b)
+	m.mu.Unlock()
+	RaceOn()
+	return n, err
 }
 
 func mix(a, b uint64) uint64 {
